@@ -3,15 +3,22 @@ import itertools
 
 from harness import core, fr
 from harness.core import gz, gbool, gstr, glist
+from harness.props import pbdag
 
 HEADER = """From Coq Require Import ZArith List Bool String.
-From FrameModel Require Import PB.Expr.
+From FrameModel Require Import PB.Expr PB.Dag Cases.CmpC16.
 Import ListNotations.
 Open Scope Z_scope."""
 
 ASSUMPTIONS = [
     "Python int is unbounded, modelled by Z; OrderedDict insertion order modelled by a list",
     "float multipliers are not generated (the code truncates them with int())",
+    "histories with shared objects (kind dag / dagbig): every object stays bound until the end of the history and is "
+    "read only then; the old object of a name rebound by an augmented assignment (x += y) is the one exception (the "
+    "history gave it up, it is not observed); read-only uses in the middle of a history (tostr, isclause, getrobdd, "
+    "a post to a throw-away SATManager) are BObs steps of the model",
+    "expressions over more than 6 variables (dagbig: 31..80) are judged by the direct oracle under all-false, "
+    "all-true and 40 sampled assignments of varying density; the model comparison is exact for every size",
 ]
 
 VARS = ["a", "b", "c", "d", "e", "f"]
@@ -142,9 +149,47 @@ def gexpr(o):
     return f"(mkE {gz(o['c'])} {glist([f'(mkT {gstr(x[1])} {gbool(x[2])} {gz(x[3])})' for x in o['t']])})"
 
 
+def gen_dag_case(rng, big=False):
+    binds = pbdag.gen_big(rng) if big else pbdag.gen_small(rng)
+    return {"kind": "dagbig" if big else "dag", "binds": binds, "pyseed": rng.randrange(1 << 30)}
+
+
+def is_dag(case):
+    return case["kind"] in ("dag", "dagbig")
+
+
+def run_dag(case):
+    env, kinds = pbdag.run_binds(case["binds"], case["pyseed"])
+    return {"snaps": [pbdag.snapshot(x, k) for x, k in zip(env, kinds)], "kinds": kinds}
+
+
+def dag_to_coq(case, obs):
+    binds = [b for b in case["binds"]]
+    chk = (f"dag_check {glist([pbdag.gbind(b) for b in binds])} "
+           f"{pbdag.gobs(obs['snaps'], obs['kinds'], skip=pbdag.consumed(binds))}")
+    for c in pbdag.zero_consts(obs["snaps"], obs["kinds"]):
+        if c != 0:
+            chk += f" && Z.eqb {gz(c)} 0"
+    return chk
+
+
+def dag_oracle(case, obs):
+    binds = case["binds"]
+    assigns = pbdag.assignments(pbdag.names_of(binds), case["pyseed"])
+    return pbdag.end_oracle(binds, obs["snaps"], obs["kinds"], assigns, skip=pbdag.consumed(binds))
+
+
+def shrink_dag(case):
+    for binds in pbdag.shrink_steps(case["binds"], pbdag.refs, pbdag.remap, simpler=pbdag.simpler_bind):
+        if None not in pbdag.kinds_of(binds):
+            yield dict(case, binds=binds, kind="dag" if len(pbdag.names_of(binds)) <= 6 else case["kind"])
+
+
 def gen_case(rng):
     import random
-    kind = rng.choice(["expr", "expr", "ineq"])
+    kind = rng.choice(["expr", "expr", "ineq", "dag", "dag", "dag"])
+    if kind == "dag":
+        return gen_dag_case(rng)
     depth = rng.choice([1, 2, 3, 4, 5, 6, 8])
     c = {"kind": kind, "tree": gen_tree(rng, depth), "pyseed": rng.randrange(1 << 30)}
     if kind == "ineq":
@@ -157,6 +202,8 @@ def gen_case(rng):
 def run_impl(case):
     import random
     from tools.rect.pseudobool import Ineq
+    if is_dag(case):
+        return run_dag(case)
     rng = random.Random(case["pyseed"])
     e = py_build(tuple_tree(case["tree"]), rng)
     snapshot = expr_obs(e)
@@ -179,16 +226,18 @@ def tuple_tree(t):
 
 
 def to_coq(case, obs):
+    if is_dag(case):
+        return dag_to_coq(case, obs)
     T = gtree(tuple_tree(case["tree"]))
-    chk = f"expr_eqb (build {T}) {gexpr(obs['e'])}"
+    chk = f"expr_seteqb (build {T}) {gexpr(obs['e'])}"
     if case["kind"] == "expr":
         return chk
     R = gtree(tuple_tree(case["rtree"]))
     rhs_model = f"(build {R})" if case["via"] == "ctor" else f"(add_expr zero (build {R}))"
     opmap = {">=": "GE", ">": "GT", "=": "EQ", "<=": "LE", "<": "LT", "==": "EQ2"}
     lhs_terms = glist([f"(mkT {gstr(x[1])} {gbool(x[2])} {gz(x[3])})" for x in obs["lhs"]["t"]])
-    return (f"{chk} && expr_eqb (build {R}) {gexpr(obs['r'])} && "
-            f"ineq_eqb (mk_ineq (build {T}) {rhs_model} {case['op']}) (mkI {lhs_terms} {gz(obs['rhs'])} {opmap[obs['op']]})"
+    return (f"{chk} && expr_seteqb (build {R}) {gexpr(obs['r'])} && "
+            f"ineq_seteqb (mk_ineq (build {T}) {rhs_model} {case['op']}) (mkI {lhs_terms} {gz(obs['rhs'])} {opmap[obs['op']]})"
             f" && Z.eqb {gz(obs['lhs']['c'])} 0")
 
 
@@ -208,6 +257,8 @@ def nf_problem(o):
 
 
 def oracle(case, obs):
+    if is_dag(case):
+        return dag_oracle(case, obs)
     tree = tuple_tree(case["tree"])
     p = nf_problem(obs["e"])
     if p:
@@ -258,6 +309,9 @@ def shrink_tree(t):
 
 
 def shrink(case):
+    if is_dag(case):
+        yield from shrink_dag(case)
+        return
     t = tuple_tree(case["tree"])
     if case["kind"] == "ineq":
         yield {"kind": "expr", "tree": t, "pyseed": case["pyseed"]}
@@ -269,10 +323,17 @@ def shrink(case):
 
 
 def failure_key(case, why):
-    return "C16/expr"
+    return "C16/dag" if is_dag(case) else "C16/expr"
 
 
 def nontrivial(case):
+    if is_dag(case):
+        # some object is used by at least two later bindings (real sharing)
+        uses = {}
+        for b in case["binds"]:
+            for i in set(pbdag.refs(b)):
+                uses[i] = uses.get(i, 0) + 1
+        return any(n >= 2 for n in uses.values())
     return tree_size(tuple_tree(case["tree"])) >= 3
 
 
@@ -280,13 +341,29 @@ def run(ctx, out, replay=None):
     n = 5000 if ctx.quick() else 100000
     out.rule = ("random expression trees (depth <= 8) over 6 variables with both polarities, cancelling terms, zero and "
                 "negative multipliers, built with the real overloaded operators (random equivalent spellings); a third are "
-                "inequalities over all six operator spellings; non-trivial = tree with at least 3 nodes; distinct by hash")
+                "inequalities over all six operator spellings; non-trivial = tree with at least 3 nodes; distinct by hash. "
+                "Half of the cases are HISTORIES over shared objects (PB/Dag.v): 6..40 bindings over 2..6 variables, each "
+                "created from earlier Literal / Term / Expr / Ineq / int / str objects (a few 'hot' ones are reused again "
+                "and again, left and right operands alike, also x op x) with + - * unary - copies sum() += comparisons and "
+                "the Ineq constructor, read-only uses in between; ALL objects are read at the end, after everything "
+                "derived from them was built; every 100th case is such a history over 31..80 variables (two long sums "
+                "sharing their variables with both polarities, every binary operation and comparison between them in both "
+                "orders); non-trivial history = some object used by two or more later bindings")
     cases = []
     if replay and "case" in replay:
         cases.append(fr.unjson(replay["case"]))
     cases += fr.load_corpus("C16")
     while len(cases) < n:
-        cases.append(gen_case(ctx.rng))
+        # (the long histories are capped at 300: their Coq text is two orders of magnitude longer than a small case's)
+        cases.append(gen_dag_case(ctx.rng, big=True) if len(cases) % 100 == 7 and len(cases) < 30000
+                     else gen_case(ctx.rng))
     fr.run_cases(ctx, out, cases, run_impl, to_coq, oracle, failure_key, HEADER,
                  dist_key=lambda c: c["kind"] + ("/" + c["op"] + "/" + c["via"] if c["kind"] == "ineq" else ""),
-                 nontrivial=nontrivial, shard=500, shrink=shrink)
+                 nontrivial=nontrivial, shard=250, shrink=shrink)
+    ops = {}
+    for c in cases:
+        if is_dag(c):
+            for b in c["binds"]:
+                key = b[0] + ("/aug" if len(b) > 3 and b[0] in ("add", "sub") else "")
+                ops[key] = ops.get(key, 0) + 1
+    out.extra["dag_bindings_by_operation"] = ops
